@@ -830,6 +830,26 @@ def path_space(lang, words, rnd, tier):
                             rec(a, 'error', sh[k % 4], line=1 + k % 1200, col=1 + k % 90, src=srcs[(k + 1) % len(srcs)])])
 
 
+def positionless_space(lang):
+    """groovyc reports an error on a node without a source position as `<file>: -1: <message> @ line -1, column -1.`
+    (ASTNode.getLineNumber() of a synthetic node is -1; no source line is quoted).  Such a diagnostic is an error
+    diagnostic like any other: its file fails, with that message.  Batches of three programs: ordinary errors in one,
+    only a position-less error in another, none in the third -- in every order, both message layouts."""
+    if lang != 'groovy':
+        return
+    files = base_files(lang)
+    sh = POOL[lang]['error']
+    srcs = POOL[lang]['src']
+    for kind_shape in sh[:3]:
+        for order in itertools.permutations(range(3)):
+            recs = [None, None, None]
+            recs[order[0]] = [rec(files[0], 'error', sh[0], line=4, col=7, src=srcs[0]),
+                              rec(files[0], 'error', sh[1], line=9, col=2, src=srcs[1])]
+            recs[order[1]] = [rec(files[1], 'error', kind_shape, line=-1, col=-1, src=None)]
+            recs[order[2]] = []
+            yield dict(lang=lang, records=[r for grp in recs for r in grp], summary=True)
+
+
 def random_batch(lang, rnd, words, maxrec=30):
     P = POOL[lang]
     nfiles = rnd.randint(1, 8)
@@ -1033,6 +1053,7 @@ def synthetic(lang, tier, seed, stop_first=False, families=None):
     feed('records', small_space(lang, 2, 3, long=True))
     rnd = random.Random(1000 + LANGS.index(lang))
     feed('paths', path_space(lang, words[::B['step']], rnd, tier))
+    feed('records', positionless_space(lang))
     feed('filter', filter_space(lang, tier))
     feed('filter', filter_many_space(lang, tier))
     feed('crash', crash_space(lang, tier))
